@@ -8,6 +8,7 @@ GOOD_PRAGMAS = ["#version gdc-1.0.0", "#annotation.spec gdc-1.0.0-public", "#ann
                 "#center broad.mit.edu", "#note made by the harness", "#n.samples 4", "#filedate 2020-01-01 ",
                 "#version gdc-2.0.0", "#version no-version", "#annotation.spec no-annotation-specification",
                 "#annotation.spec nothing-known", "#sort.order Bogus", "#contigs ", "#contigs a", "#contigs chr1,chr2,", "#contigs ,1,2", "#contigs 1,,2", "#contigs ,", "#k v w  x",
+                "#gc% 12", "#version 100%", "#sort.order %d", "#annotation.spec 50%s",
                 "#key value\t", "#key \tvalue", "#tab\tkey value", "#unicode Ünï", "#key value ",
                 # a key may itself start with the line symbol (VCF-style double hash): only ONE symbol starts the line
                 "##source caller-x", "##version gdc-1.0.0", "##contigs a,b", "##sort.order Coordinate", "###three hashes", "##center x"]
